@@ -278,3 +278,41 @@ func verifH_C02_loader_reuse_same_location() {
 	verifAssert(u != nil && u.Value != nil && u.Value.MinLength == 3 && p != nil && p.Value != nil && p.Value.Schema != nil && p.Value.Schema.Value != nil && p.Value.Schema.Value.MinLength == 3 && r != nil && r.Value != nil, "C02 same location: every reference of the repaired document is resolved")
 	verifReach("end")
 }
+
+//verif:harness id=C02 tier=quick,thorough witness=end bounds="a reference to the wrong kind of object, met while that object is still being resolved: inside component Y (response / parameter / header / request body) a position of another kind (header, schema, example, link) refers back to Y or to X = {$ref: Y}, in either order of X and Y, in the root or with Y as a whole file that refers to itself by name; through three entry points: loading fails, the position is not left unresolved or filled with the other kind's object"
+func verifH_C02_wrong_kind_in_progress() {
+	type nest struct{ kind, inner string }
+	nests := []nest{
+		{"responses", `{"description":"d","headers":{"H":%s}}`},
+		{"responses", `{"description":"d","content":{"application/json":{"schema":%s}}}`},
+		{"responses", `{"description":"d","content":{"application/json":{"examples":{"e":%s}}}}`},
+		{"responses", `{"description":"d","links":{"l":%s}}`},
+		{"parameters", `{"name":"p","in":"query","schema":%s}`},
+		{"parameters", `{"name":"p","in":"query","examples":{"e":%s}}`},
+		{"headers", `{"schema":%s}`},
+		{"requestBodies", `{"content":{"application/json":{"schema":%s}}}`},
+	}
+	ni := verifChoose("nest", len(nests))
+	n := nests[ni]
+	// known finding: the examples of a parameter are never visited by the loader, so a wrong-kind reference there is not noticed either
+	verifKnown("C02-nested-examples-and-encoding-headers-not-resolved", ni == 5)
+	files := map[string]string{}
+	var comps string
+	if verifChoose("wholeFile", 2) == 1 {
+		// Y is a file of its own, and the inner position refers to that file
+		files["/r/y.json"] = strings.Replace(n.inner, "%s", `{"$ref":"y.json"}`, 1)
+		comps = `"X":{"$ref":"y.json"}`
+	} else {
+		target := []string{"X", "Y"}[verifChoose("target", 2)]
+		back := `{"$ref":"#/components/` + n.kind + `/` + target + `"}`
+		x, y := `{"$ref":"#/components/`+n.kind+`/Y"}`, strings.Replace(n.inner, "%s", back, 1)
+		if verifChoose("order", 2) == 1 {
+			x, y = strings.Replace(n.inner, "%s", back, 1), `{"$ref":"#/components/`+n.kind+`/X"}`
+		}
+		comps = `"X":` + x + `,"Y":` + y
+	}
+	rootText := `{"openapi":"3.0.0","info":{"title":"t","version":"1"},"paths":{},"components":{"` + n.kind + `":{` + comps + `}}}`
+	doc, err := verifLoadFiles(rootText, files)
+	verifAssert(err != nil && doc == nil, "C02 wrong kind in progress: a reference to an object of another kind makes loading fail, also when that object is still being resolved")
+	verifReach("end")
+}
